@@ -142,6 +142,7 @@ def crash(steps, models, mode, exc):
         vx.observe("fault", None)
         return
     fr, fi, fj = (vx.concretize_int(x) for x in (r, i, j))
+    vx.observe("propagated", caught is marker and result is None)
     vx.prove(f"C09/{mode}/propagates/{lab}", caught is marker and type(caught) is EXC[exc] and "injected fault 0xC09" in str(caught.args[0]) and result is None)
     notes = "\n".join(getattr(caught, "__notes__", []))
     g, nm = layout[fj]
@@ -166,7 +167,8 @@ def fidelity_crash(kwargs, w):
     caught, result, marker, layout = _drive(kwargs["steps"], kwargs["models"], kwargs["mode"], EXC[kwargs["exc"]], fault, log)
     if f is None:
         return caught is None and result is not None, {}
-    return caught is marker and result is None, {"caught": repr(caught)}
+    # the concrete run must behave like the symbolic one did on this path (whether or not that is what the property wants)
+    return (caught is marker and result is None) == bool(w["observed"].get("propagated", True)), {"caught": repr(caught)}
 
 
 def fitness_crash(exc):
